@@ -299,7 +299,16 @@ inline std::string battery(nifly::NifFile& nif, const BatteryOpts& opt) {
 			out += std::to_string(nif.GetBlockID(b)) + ",";
 		out += "\n";
 	}
-	out += "sse=" + std::to_string(nif.IsSSECompatible()) + "\n";
+	if (opt.indexed)
+		out += "sse=" + std::to_string(nif.IsSSECompatible()) + "\n";
+	else {
+		// over the reachable shapes only (a default save may prune loose shapes)
+		bool all = true;
+		for (auto s : nif.GetShapes())
+			if (reach.count(s) && !nif.IsSSECompatible(s))
+				all = false;
+		out += "sse=" + std::to_string(all) + "\n";
+	}
 	return out;
 }
 
